@@ -10,7 +10,7 @@ META = {
     "technique": "CrossHair (z3) exploration of symbolic container stacks written as records on the in-memory file system (real user blocks), merged by the real merge_files/h5_copy_from_to: merged view == source view == fold(stack), merged user block continues the chain, source unchanged on disk and through the open object, follow-up patches apply to the merged container with the same result",
     "explanation": "bounded symbolic exploration (kinds realised by solver-driven branching); exhaustive within the stated bounds",
     "bounds": {
-        "quick": {"stack": "2 containers over universe {a, a/x, attr a@k} and 3 containers over {a, a/x}; every Inv-valid stack", "follow-up patch": "one operation out of 8",
+        "quick": {"stack": "2 containers over universes {a, a/x, attr a@k}, {a, a/x, attr a/x@k}, {a, root attr k} and 3 containers over {a, a/x}; every Inv-valid stack; second-generation merge (merged container + follow-up patch merged again)", "follow-up patch": "one operation out of 8",
                   "classes": "IH5Record and IH5MFRecord (with manifest)", "refusal": "uncommitted base / uncommitted patch"},
         "thorough": {"stack": "3 containers over {a, a/x, attr a@k}, {a, b}"},
     },
@@ -29,11 +29,11 @@ def prechecks(tier):
 def plan(tier, seed):
     parts = []
     ob = "merged view == overlay view == fold; same record/patch identity; source unchanged (disk + ih5_meta + view); follow-up patch applies to merged container alike"
-    cfgs = [("ax_k", 2, "ih5"), ("ax_k", 2, "mf"), ("ax", 3, "ih5")] if tier == "quick" else \
-           [("ax_k", 2, "ih5"), ("ax_k", 2, "mf"), ("ax", 3, "ih5"), ("ax", 3, "mf"), ("ax_k", 3, "ih5"), ("ab", 3, "ih5")]
+    cfgs = [("ax_k", 2, "ih5"), ("ax_k", 2, "mf"), ("ax", 3, "ih5"), ("ax_xk", 2, "ih5"), ("rootk", 2, "ih5")] if tier == "quick" else \
+           [("ax_k", 2, "ih5"), ("ax_k", 2, "mf"), ("ax", 3, "ih5"), ("ax", 3, "mf"), ("ax_k", 3, "ih5"), ("ab", 3, "ih5"), ("ax_xk", 2, "mf"), ("ax_xk", 3, "ih5"), ("rootk", 3, "mf")]
     for u, n, c in cfgs:
         fus = range(8)
-        if tier == "quick" and (n, c) != (2, "ih5"):
+        if tier == "quick" and (n, c, u) != (2, "ih5", "ax_k"):
             fus = (0, 2, 4) if c == "mf" else (1, 3)  # (the merged view does not depend on the follow-up)
         for fu in fus:
             if n >= 3 and u == "ax_k":
@@ -43,6 +43,7 @@ def plan(tier, seed):
                 parts.append(Part(H, "merge", {"n": n, "u": u, "cls": c, "fu": fu}, 900 if tier == "quick" else 4000, 120, ob, weight=n))
     for c in ("ih5", "mf"):
         parts.append(Part(H, "refused", {"cls": c}, 120, 60, "merge refused with uncommitted changes; nothing left behind"))
+    parts.append(Part(H, "refused_stub", {}, 120, 60, "merge refused when the set contains a stub (fresh, reopened, or with a patch on top)"))
     return parts
 
 
